@@ -71,7 +71,7 @@ int aws_last_error(void) {
 
 /* ghost witnesses: all arbitrary; the pin clauses of the contract tie them to the pre-state.  Without DFCC, objects of
  * static lifetime start zeroed, so the pool of handles is made arbitrary here. */
-#define PQ_GHOSTS() do { AL_GHOST_RESET(); g_on = true; g_desc = nondet_bool(); g_pj = nondet_size_t(); \
+#define PQ_GHOSTS() do { AL_GHOST_RESET(); g_on = true; g_desc = nondet_bool(); g_boolcmp = nondet_bool(); g_pj = nondet_size_t(); \
         g_ki = nondet_size_t(); g_pos = nondet_size_t(); g_ki_key = nondet_u8(); g_ki_b = nondet_u8(); g_ki_bp = nondet_ptr(); \
         g_h = nondet_size_t(); g_h_idx = nondet_size_t(); g_h_inq = nondet_bool(); g_h_key = nondet_u8(); g_h_b = nondet_u8(); \
         g_out = nondet_size_t(); g_out_b = nondet_u8(); g_moved = nondet_bool(); \
